@@ -59,9 +59,12 @@ def atoiAccepts (s : String) : Bool :=
 
 def hasNul (s : String) : Bool := s.toList.any (· == Char.ofNat 0)
 
+/-- every character is a single byte (the non-terminal string encoding of collections keys keeps only the first byte of a character) -/
+def allAscii (s : String) : Bool := s.toList.all (fun c => c.toNat < 128)
+
 /-- `ValidateCounterpartyID`. -/
 def validateCounterpartyID (id : String) (p : Int) : Bool :=
-  id != "" && !hasNul id && byteLen id ≤ Gen.maxCounterpartyIDLength &&
+  id != "" && !hasNul id && allAscii id && byteLen id ≤ Gen.maxCounterpartyIDLength &&
     (if p == PROTOCOL_IBC then isValidChannelID id
      else if p == PROTOCOL_CCTP || p == PROTOCOL_HYPERLANE then isCanonicalU32 id
      else if p == PROTOCOL_INTERNAL then true
